@@ -11,6 +11,7 @@ State: `clients[key][action] : []throttleEntry` becomes a total function
 empty slice, see `pruneEntries`/`cleanup`).
 -/
 import SigModel.Generated.Throttle
+import SigModel.Generated.ThrottleSites
 
 namespace SigModel.Throttle
 open SigModel.Generated.Throttle
@@ -283,5 +284,185 @@ def run (st : State) : List Op → State × List Out
     let (st1, o) := step st op
     let (st2, os) := run st1 ops
     (st2, o :: os)
+
+/-! ### the call sites (regenerated)
+
+The throttler decides nothing by itself: three handlers consult it — the room API (`BackendRoomAuth`,
+backend_server.go `roomHandler`), the internal hello (`HelloInternal`, hub.go `processHelloInternal`) and the
+resuming hello (`HelloResume`, hub.go `processHello`).  `Generated.ThrottleSites.*SitePaths` list, for each
+handler, every control-flow path as the sequence of its events (see tools/extract/throttlesites.go): the
+consultation `("check", action)`, the branch on `ErrBruteforceDetected` `("blocked", "+"/"-")`, the call of
+the returned function `("throttle", "")`, the answers `("reply", …)`, and — up to the consultation — every
+call made.  The predicates below are the three things the statement needs from a call site; the model of
+a handled attempt (`siteAttempt`) is defined over their values. -/
+
+abbrev Ev := String × String
+abbrev SitePath := List Ev
+
+/-- What is expected of one call site (reviewed by hand, against the statement). -/
+structure SiteSpec where
+  action : String
+  /-- the answer a blocked address gets -/
+  refusal : String
+  /-- the answers that tell the peer its credential was rejected -/
+  rejected : List String
+  /-- events after which a rejection is deliberately not counted as a failure (resume: the id was
+  well-formed and the session table was looked at — a session that has expired meanwhile) -/
+  exempt : List Ev
+  /-- what may happen before the throttler is consulted -/
+  before : List Ev
+  /-- what a path that never consults the throttler may do: nothing that looks at the credential -/
+  unchecked : List Ev
+
+def isCheck (e : Ev) : Bool := e.1 == "check"
+
+/-- Events before / after the (first) consultation. -/
+def SitePath.pre (p : SitePath) : SitePath := p.takeWhile fun e => !isCheck e
+def SitePath.post (p : SitePath) : SitePath := (p.dropWhile fun e => !isCheck e).drop 1
+
+def SitePath.throttles (p : SitePath) : Nat := p.countP fun e => e.1 == "throttle"
+
+/-- The path ends in a rejection of the credential that counts as a failure. -/
+def SitePath.rejected (s : SiteSpec) (p : SitePath) : Bool :=
+  p.post.any (fun e => e.1 == "reply" && s.rejected.contains e.2) && !p.post.any fun e => s.exempt.contains e
+
+/-- **The throttler is consulted before the credential is looked at**: a path that consults it does so
+once, for the site's own kind of attempt, after nothing but harmless calls; a path that does not, does
+nothing but what `unchecked` lists and never answers "rejected". -/
+def pathConsultsFirst (s : SiteSpec) (p : SitePath) : Bool :=
+  match p.find? isCheck with
+  | some c => c.2 == s.action && p.pre.all (fun e => s.before.contains e) && !p.post.any isCheck
+  | none => p.all fun e => s.unchecked.contains e || e.1 == "return" ||
+      (e.1 == "reply" && !s.rejected.contains e.2 && e.2 != s.refusal)
+
+def consultsFirst (s : SiteSpec) (paths : List SitePath) : Bool :=
+  paths.all (pathConsultsFirst s) && paths.any fun p => p.any isCheck
+
+/-- **A blocked address is refused, whatever it presents**: the first thing after the consultation is
+the test for `ErrBruteforceDetected`, and the branch taken when it holds answers with the refusal and
+returns — nothing else happens on it. -/
+def pathRefuses (s : SiteSpec) (p : SitePath) : Bool :=
+  if p.any isCheck then
+    match p.post with
+    | ("blocked", "+") :: rest => rest == [("reply", s.refusal), ("return", "")]
+    | ("blocked", "-") :: rest => !rest.any fun e => e.1 == "blocked"
+    | _ => false
+  else true
+
+def refusesBlocked (s : SiteSpec) (paths : List SitePath) : Bool :=
+  paths.all (pathRefuses s) && paths.any fun p => p.post.head? == some ("blocked", "+")
+
+/-- **A failure is recorded exactly when the attempt fails**: the function returned by the consultation
+is called once — before the answer — on the paths that reject the credential, and on no other path; it
+is not handed to code the analysis does not follow. -/
+def pathCounts (s : SiteSpec) (p : SitePath) : Bool :=
+  !p.any (fun e => e.1 == "escape" || e.1 == "?") &&
+  if p.rejected s then
+    p.throttles == 1 && (p.post.takeWhile fun e => !(e.1 == "reply")).any fun e => e.1 == "throttle"
+  else p.throttles == 0
+
+def countsFailures (s : SiteSpec) (paths : List SitePath) : Bool :=
+  paths.all (pathCounts s) && paths.any (fun p => p.rejected s) &&
+  -- there is a way through: consulted, not blocked, nothing recorded, no rejection
+  paths.any fun p => p.post.head? == some ("blocked", "-") && !p.rejected s && p.throttles == 0 &&
+    !p.post.any fun e => e.1 == "reply" && s.rejected.contains e.2
+
+structure SiteCfg where
+  consultsFirst : Bool
+  refusesBlocked : Bool
+  countsFailures : Bool
+  deriving DecidableEq, Repr
+
+def SiteCfg.guarded : SiteCfg := ⟨true, true, true⟩
+
+def siteCfg (s : SiteSpec) (paths : List SitePath) : SiteCfg :=
+  ⟨consultsFirst s paths, refusesBlocked s paths, countsFailures s paths⟩
+
+/-- The answer given on the branch taken for a blocked address (what the model predicts for a refusal). -/
+def refusalOf (paths : List SitePath) : String :=
+  match paths.find? fun p => p.post.head? == some ("blocked", "+") with
+  | some p => match p.post.find? fun e => e.1 == "reply" with
+    | some e => e.2
+    | none => "none"
+  | none => "none"
+
+def roomSpec : SiteSpec where
+  action := "BackendRoomAuth"
+  refusal := "http:429"
+  rejected := ["http:403"]
+  exempt := []
+  before := [("call", "r.Context"), ("call", "b.hub.getRealUserIP")]
+  unchecked := []
+
+def internalSpec : SiteSpec where
+  action := "HelloInternal"
+  refusal := "error:too_many_requests"
+  rejected := ["error:invalid_token", "error:invalid_backend"]
+  exempt := []
+  before := [("defer", "h.startExpectHello"), ("call", "context.TODO"), ("call", "client.RemoteAddr")]
+  -- no secret for internal clients configured: nothing to guess
+  unchecked := [("defer", "h.startExpectHello")]
+
+def resumeSpec : SiteSpec where
+  action := "HelloResume"
+  refusal := "error:too_many_requests"
+  rejected := ["error:no_such_session"]
+  -- hub.go: "we don't throttle if the resume id syntax is valid but the session has expired already"
+  exempt := [("lock", "h.mu")]
+  before := [("call", "context.TODO"), ("call", "client.RemoteAddr")]
+  -- a hello without resume id: handed on to the other kinds of hello
+  unchecked := [("call", "context.TODO"), ("lock", "h.mu"), ("call", "h.mu.Unlock"), ("call", "h.processHelloClient"),
+    ("call", "h.processHelloInternal"), ("call", "h.startExpectHello")]
+
+open SigModel.Generated.ThrottleSites in
+/-- The three call sites as the source has them now. -/
+def sites : List (SiteSpec × List SitePath) :=
+  [(roomSpec, roomSitePaths), (internalSpec, internalSitePaths), (resumeSpec, resumeSitePaths)]
+
+def siteOf (a : Action) : Option (SiteSpec × List SitePath) := sites.find? fun sp => sp.1.action == a
+
+/-- **One attempt as a handler treats it.**  `failed` = the credential is one the handler rejects.  A
+handler that consults the throttler first sees a blocked address before it looks at the credential; one
+that does not only gets to the throttler once it has found the credential bad.  With all three facts
+this is `step (.attempt …)` (`C17_site_is_attempt`). -/
+def siteAttempt (c : SiteCfg) (st : State) (now : Int) (addr : Addr) (a : Action) (failed : Bool) : State × Out :=
+  let k := throttleKey addr
+  if c.consultsFirst || failed then
+    let (st1, r) := check st now k a
+    if r && c.refusesBlocked then (st1, .refused)
+    else if failed then
+      if c.countsFailures then
+        let (st2, d) := throttle st1 now k a
+        (st2, .delayed d)
+      else (st1, .passed)
+    else (st1, .passed)
+  else (st, .passed)
+
+def siteRun (c : SiteCfg) (st : State) : List (Int × Addr × Action × Bool) → State × List Out
+  | [] => (st, [])
+  | (now, addr, a, failed) :: rest =>
+    let (st1, o) := siteAttempt c st now addr a failed
+    let (st2, os) := siteRun c st1 rest
+    (st2, o :: os)
+
+/-- Which credentials the handlers reject (as the code has it; the exemption of `resumeSpec` makes a
+well-formed id of a session that is gone a non-failure). -/
+def credFails (a : Action) (cred : String) : Option Bool :=
+  if a = "BackendRoomAuth" then
+    if cred = "good" ∨ cred = "goodold" then some false
+    else if cred = "bad" ∨ cred = "nobackend" ∨ cred = "badold" then some true else none
+  else if a = "HelloInternal" then
+    if cred = "good" then some false
+    else if cred = "bad" ∨ cred = "short" ∨ cred = "nobackend" then some true else none
+  else if a = "HelloResume" then
+    if cred = "good" ∨ cred = "stale" then some false else if cred = "bad" then some true else none
+  else none
+
+/-- The answer a non-blocked attempt gets. -/
+def credAnswer (a : Action) (cred : String) : String :=
+  if a = "BackendRoomAuth" then (if cred = "good" ∨ cred = "goodold" then "http:200" else "http:403")
+  else if a = "HelloInternal" then
+    (if cred = "good" then "hello" else if cred = "nobackend" then "error:invalid_backend" else "error:invalid_token")
+  else (if cred = "good" then "hello" else "error:no_such_session")
 
 end SigModel.Throttle
